@@ -165,13 +165,19 @@ def reuse_case(case):
     from invoke import Context, Config, Local
     from invoke.exceptions import CommandTimedOut
     r = Local(Context(Config()))
-    for i, text in enumerate(case["texts"]):
+    for i, item in enumerate(case["texts"]):
+        # an item is the input text of a `cat`, or [command, text] for a command that does NOT read all of its input
+        # (it ends early, so forwarding meets a closed pipe): what it printed must be a prefix of its input, and the
+        # commands after it must be served as if it had never run
+        cmd, text = item if isinstance(item, list) else ("cat", item)
         try:
-            res = r.run("cat", in_stream=io.StringIO(text), hide=True, encoding="utf-8", timeout=15, echo_stdin=False)
+            res = r.run(cmd, in_stream=io.StringIO(text), hide=True, encoding="utf-8", timeout=15, echo_stdin=False)
         except CommandTimedOut:
             return "run %d on one runner object: a command reading to EOF did not terminate" % i
-        if res.stdout != text:
+        if cmd == "cat" and res.stdout != text:
             return "run %d on one runner object: the command received %r, its input was %r" % (i, res.stdout[:40], text[:40])
+        if cmd != "cat" and not text.startswith(res.stdout):
+            return "run %d on one runner object (%s): printed %r, which is not a prefix of its input" % (i, cmd, res.stdout[:40])
     return None
 
 
@@ -402,6 +408,9 @@ def run(ctx):
                 extra.append({"kind": "real", "text": t, "bytes": b, "cmd": cmd})
     extra.append({"kind": "reuse", "texts": ["one\n", "two é\n", "", "three\n"]})
     extra.append({"kind": "reuse", "texts": ["", "x"]})
+    # commands that end before their input is forwarded (the write meets a closed pipe), then ordinary ones
+    extra.append({"kind": "reuse", "texts": [["true", "x" * 300], "after\n", ["head -c 2", "abcdef" * 60], "again é\n"]})
+    extra.append({"kind": "reuse", "texts": ["first\n", ["exit 0", "y" * 200], ["true", ""], "last\n"]})
     encs = ["utf-8", "latin-1", "cp1252", "utf-16-le", "cp1251", "utf-8", "utf-16", "utf-8-sig", "shift_jis"]
     pool = "aé ñoz\n€яx5"
     for _ in range(ctx.n(40, 400)):
